@@ -728,6 +728,20 @@ impl<'a> VisitMut for Norm<'a> {
                     blk.stmts.extend(inner_hoisted);
                     blk.stmts.extend(self.anchor(&format!("closure{}.start", n)));
                     match &**body { Expr::Block(b) if b.label.is_none() => blk.stmts.extend(b.block.stmts.clone()), other => blk.stmts.push(Stmt::Expr(other.clone(), None)) }
+                    // closureK.ret: bind the closure's tail expression to its declared ret name, weave, return it
+                    let ret_anchor = self.anchor(&format!("closure{}.ret", n));
+                    if !ret_anchor.is_empty() {
+                        let rname = cs.ret.split(':').next().unwrap_or("").trim().to_string();
+                        if let (Some(Stmt::Expr(_, None)), Ok(rn)) = (blk.stmts.last(), parse_str::<Ident>(&rname)) {
+                            let Some(Stmt::Expr(tail, None)) = blk.stmts.pop() else { unreachable!() };
+                            blk.stmts.push(parse_quote!(let #rn = #tail;));
+                            blk.stmts.extend(ret_anchor);
+                            blk.stmts.push(Stmt::Expr(parse_quote!(#rn), None));
+                            self.bump("R-RETBIND");
+                        } else {
+                            self.errors.push(format!("closure{}.ret in {}: closure has no tail expression or no ret(name: T)", n, self.fname));
+                        }
+                    }
                     c.body = Box::new(Expr::Block(ExprBlock { attrs: vec![], label: None, block: blk }));
                     c.output = ReturnType::Default;
                     let var = Ident::new(&format!("__c{}", n), Span::call_site());
